@@ -264,6 +264,7 @@ def run(ctx: C.Ctx):
     shared_histories(ctx, reqs, pend)
     spellings(ctx, reqs, pend)
     inheritance_histories(ctx, reqs, pend)
+    recursive_classes(ctx, reqs, pend)
     if ctx.model_available:
         outs = ctx.driver.run(reqs)
         for (case, impl_out, built), o in zip(pend, outs):
@@ -534,6 +535,148 @@ def inheritance_histories(ctx, reqs, pend):
                 st.add_json(jd)
                 reqs.append({'op': 'loadv1', 'ty': model.enc_ty(ty), 'doc': model.enc_j(jd), 'std': st.build()})
                 pend.append((case, out_j, built))
+        finally:
+            built.close()
+
+
+# --------------------------------------------------------------------------- self-referential / mutually recursive dataclasses
+
+RC_BASE = 4_000_000
+
+
+def _insert_field(rng, ty, ft, dflt):
+    """add a field of type ft to class model ty at a random position among the required fields (dflt None) / among the fields with a
+    default (so that other fields with a default come before AND after it)"""
+    fields = ty['info']['fields']
+    name = gen.field_name(rng, {f['name'] for f in fields})
+    first_d = next((i for i, f in enumerate(fields) if f.get('dflt') is not None), len(fields))
+    if dflt is None:
+        fields.insert(rng.randint(0, first_d), {'name': name})
+    else:
+        fields.insert(rng.randint(first_d, len(fields)), {'name': name, 'dflt': dflt, 'factory': dflt[0] != 'lit'})
+    ty['ftys'].append([name, ft])
+    return name
+
+
+def recursive_case(rng):
+    """a class model that reaches itself again: directly (A -> A, one or two recursive fields), through a second class (A -> B -> A) or a
+    third (A -> B -> C -> A); every step of the cycle goes through a random link (Optional, list, dict value, variadic tuple, deque,
+    Optional[list], tuple[int, Optional], list[Optional]; the steps that do not close the cycle also bare), as a required field or with its
+    natural default, at a random position among the class's other fields — which are drawn from the C02 grammar, most of them with a default.
+    The main class carries a consistent (v1_key_case, dump transform) pair, in a part of the cases with skip_defaults; the other classes of the
+    cycle have no Meta.  -> (class model of A, names of the classes on the cycle, form)"""
+    o = gen.Opts(meta_keys=[], leaves=gen.LEAVES_DEFAULT + ['bytes', 'bytearray'], meta_prob=0.0, wizard_prob=0.8, py_wizard_prob=0.0, max_fields=3,
+                 defaults_prob=0.65)
+    form = rng.choice(['self', 'self', 'self2', 'mutual', 'mutual', 'chain3'])
+    cyc = [strip_shapes(gen.gen_cls(rng, rng.choice([0, 0, 1]), o)) for _ in range({'self': 1, 'self2': 1, 'mutual': 2, 'chain3': 3}[form])]
+    for c in cyc[1:]:
+        if rng.random() < 0.6:
+            c['info']['wizard'] = False
+    a_name = cyc[0]['info']['name']
+
+    def add(ty, target, closing):
+        kind = rng.choice(gen.REC_LINKS if closing else gen.REC_LINKS + ['bare', 'bare'])
+        if kind == 'bare':
+            return _insert_field(rng, ty, target, None)
+        return _insert_field(rng, ty, gen.rec_link(kind, target), gen.rec_default(kind) if rng.random() < 0.75 else None)
+    # innermost class first: it closes the cycle with a reference to A by name
+    add(cyc[-1], {'k': 'ref', 'name': a_name}, True)
+    if form == 'self2':
+        add(cyc[0], {'k': 'ref', 'name': a_name}, True)
+    for q_ in range(len(cyc) - 2, -1, -1):
+        add(cyc[q_], cyc[q_ + 1], False)
+    ty = cyc[0]
+    meta, pair = _pair_meta(rng)
+    if rng.random() < 0.25:
+        meta['skip_defaults'] = True
+    ty['info']['meta'] = meta
+    return ty, [c['info']['name'] for c in cyc], form, pair
+
+
+def _levels(x, names):
+    """(how many instances of the cycle's classes are nested in each other at most, how deep dataclass instances nest at all)"""
+    import dataclasses
+    import collections
+
+    def walk(v):
+        if dataclasses.is_dataclass(v) and not isinstance(v, type):
+            sub = [walk(getattr(v, f.name)) for f in dataclasses.fields(v) if hasattr(v, f.name)]
+            c = max([s_[0] for s_ in sub], default=0)
+            d = max([s_[1] for s_ in sub], default=0)
+            return (c + (type(v).__name__ in names), d + 1)
+        if isinstance(v, dict):
+            sub = [walk(y) for y in v.values()]
+        elif isinstance(v, (list, tuple, set, frozenset, collections.deque)):
+            sub = [walk(y) for y in v]
+        else:
+            return (0, 0)
+        return (max([s_[0] for s_ in sub], default=0), max([s_[1] for s_ in sub], default=0))
+    return walk(x)
+
+
+def recursive_classes(ctx, reqs, pend):
+    """recursive class models: the generated load function of a class is entered again (for the child object) while an outer call of the
+    same function is still collecting its own constructor arguments; dump-then-load must give back every level with ITS values"""
+    import random
+    from dataclass_wizard import asdict, fromdict
+    rng = random.Random(f'{ctx.prop_id}:{ctx.seed}:recursive')
+    n = ctx.quick(300, 5000)
+    ctx.rule += (' RECURSIVE CLASSES: self-referential (one or two recursive fields), mutually recursive (A -> B -> A) and three-class cycles, every '
+                 'step through Optional / list / dict value / variadic tuple / deque / Optional[list] / tuple[int, Optional] / list[Optional] / bare, '
+                 'required or with the natural default, at a random position among 1-3 other fields per class over the C02 grammar (most with a '
+                 'default, before and after the recursive field), consistent (v1_key_case, dump transform) pairs, with and without skip_defaults; '
+                 'instances 2-5 levels deep with independent random values per level: fromdict(asdict(x)), JSON text, from_json / from_list, and '
+                 'the load vs the Lean model of the class model unrolled to the depth of the instance.')
+    for j in range(n):
+        i = RC_BASE + j
+        if ctx.done(i):
+            break
+        ty, names, form, pair = recursive_case(rng)
+        try:
+            built = model.Built(ty)
+        except Exception as e:
+            ctx.count('build_error')
+            ctx.notes.setdefault('build_errors', []).append(repr(e)[:200])
+            continue
+        try:
+            for _try in range(4):
+                x = gen.gen_instance(rng, ty, built, size=rng.choice([3, 3, 4]), use_defaults_prob=0.15)
+                lv, depth = _levels(x, set(names))
+                if lv > len(names):
+                    break
+            if not ctx.begin_case(i):
+                continue
+            case = {'ty': ty, 'inst': repr(x)[:700], 'form': form, 'cycle': names, 'levels': lv}
+            ctx.seen('recursive:' + form, case, nontrivial=lv > len(names))
+            Cls = built.root
+            src = dict(src=built.source)
+            try:
+                d = asdict(x)
+            except Exception as e:
+                ctx.fail('recursive:dump', case, f'asdict raised {e!r}', detail=src)
+                continue
+            key = _known_key(x)
+            pre = f'{form} cycle {names}, {lv} levels: '
+            check_rt(ctx, 'recursive:dict', case, load_outcome(lambda: fromdict(Cls, d)), x, src, key, pre)
+            try:
+                jd = json.loads(json.dumps(d))
+            except Exception:
+                jd = None
+            if jd is not None:
+                out_j = load_outcome(lambda: fromdict(Cls, jd))
+                check_rt(ctx, 'recursive:jsonified', case, out_j, x, src, key, pre)
+                st = model.StdTables()
+                st.add_json(jd)
+                reqs.append({'op': 'loadv1', 'ty': model.enc_ty(model.unroll(ty, depth)), 'doc': model.enc_j(jd), 'std': st.build()})
+                pend.append((case, out_j, built))
+            if hasattr(Cls, 'from_json'):
+                check_rt(ctx, 'recursive:json', case, load_outcome(lambda: Cls.from_json(x.to_json())), x, src, key, pre)
+                out = load_outcome(lambda: Cls.from_list(json.loads(Cls.list_to_json([x, x]))))
+                if out[0] == 'ok' and len(out[1]) == 2:
+                    for y_ in out[1]:
+                        check_rt(ctx, 'recursive:list', case, ('ok', y_), x, src, key, pre)
+                else:
+                    check_rt(ctx, 'recursive:list', case, out if out[0] == 'err' else ('err', ValueError(f'{len(out[1])} elements')), x, src, key, pre)
         finally:
             built.close()
 
